@@ -50,12 +50,35 @@ def check(ck, lib, sk, rid, which):
         return
     ps = f["ps"]
     n = 0
+    n_none = 0
     for i, x in enumerate(f["exits"]):
         r = sk.exit_result(x)
         if not (r and r[0][0] == "ok"):
             continue
         payload = r[0][1]
         val = strip_sites(sk.val_of(payload))
+        if "empty" in which and val[0] == "ctor" and val[1] == pathsum.NONE:
+            # "no call" means an empty program message: the only thing consumed besides white space is the newline
+            n_none += 1
+            ch0 = sk.chain(sk.rem_of(payload), f["inp"], x, ps)
+            st0 = St(tuple(strip_sites(c) for c in x.conds))
+            toks = []
+            for c in (ch0 or []):
+                if len(c) <= 2 or not c[1]:
+                    continue
+                pid = c[1]
+                if pid[0] == "optional":
+                    d = ps.decided(st0, ("tproj", ("payload", strip_sites(c[2]), OK, 0), 1), SOME)
+                    if d is False:
+                        continue
+                    pid = pid[1] if d is True else ("maybe", pid[1])
+                toks.append(pid)
+            rest = [t for t in toks if not (t[0] == "fn" and t[1] == P + "whitespace") and not (t[0] == "maybe" and t[1] == ("fn", P + "whitespace"))]
+            ok = ch0 is not None and rest == [("tag", 10)]
+            ck.judge(ok, rid, "parse:none#%d" % n_none, "no call is returned only for an empty message (white space, newline)",
+                     "parse returns `no call` after consuming %s: the caller takes `no call` for a consumed message terminator and resets the header path"
+                     % ([t for t in toks] if ch0 is not None else "an underived remainder"), data=pathsum.show_exit(x)[:1200])
+            continue
         if not (val[0] == "ctor" and val[1] == SOME and val[2] and val[2][0][0] == "struct" and val[2][0][1] == CALL):
             continue
         n += 1
@@ -166,3 +189,5 @@ def check(ck, lib, sk, rid, which):
                 ok = ok and not [e for e in x.effects if e[0] == "call" and e[1].endswith("::push")]
             ck.judge(ok, rid, key + ":args", "args is the vector filled by arguments()", "field args of the returned call is `%s`, not the vector the argument parser filled" % (show_term(a) if a else None))
     ck.floor(rid, "accepting paths of parse that return a call", n, 2)
+    if "empty" in which:
+        ck.floor(rid, "accepting paths of parse that return no call", n_none, 1)
